@@ -366,11 +366,15 @@ def forbidden_scan():
 def run_coq_cases(suite, imports, runner, case_terms, shard=150, keep=False):
     """case_terms: list of Coq terms of type (input * ov).  Returns (n_evaluated, mismatch indices, logs)."""
     os.makedirs(GEN, exist_ok=True)
+    # a private directory per call: several checks may run at the same time (file names must not collide)
+    import tempfile
+    import shutil
+    wd = tempfile.mkdtemp(prefix=f"run_{suite}_", dir=GEN)
     files = []
     for k in range(0, len(case_terms), shard):
         part = case_terms[k:k + shard]
         name = f"cases_{suite}_{k // shard}"
-        path = os.path.join(GEN, name + ".v")
+        path = os.path.join(wd, name + ".v")
         with open(path, "w") as fh:
             fh.write(imports + "\nOpen Scope Z_scope.\n")
             # the element type is fixed by the runner's domain: a first case with empty lists must not leave it open
@@ -384,7 +388,7 @@ def run_coq_cases(suite, imports, runner, case_terms, shard=150, keep=False):
 
     def launch(item):
         k, path, n = item
-        return (item, subprocess.Popen(["timeout", "900", "coqc"] + COQ_FLAGS + [path], cwd=GEN,
+        return (item, subprocess.Popen(["timeout", "900", "coqc"] + COQ_FLAGS + [path], cwd=wd,
                                        stdout=subprocess.PIPE, stderr=subprocess.STDOUT, text=True, env=env))
     pending = list(files)
     running = []
@@ -411,10 +415,8 @@ def run_coq_cases(suite, imports, runner, case_terms, shard=150, keep=False):
                     os.remove(path[:-2] + ext)
                 except OSError:
                     pass
-            try:
-                os.remove(os.path.join(GEN, "." + os.path.basename(path)[:-2] + ".aux"))
-            except OSError:
-                pass
+    if not keep:
+        shutil.rmtree(wd, ignore_errors=True)
     return total, sorted(mism), logs
 
 
